@@ -58,7 +58,7 @@ def _check_read(case):
     width, rate, ivs, offgrid, kind, repl = case[:6]
     order = case[6] if len(case) > 6 else "asc"  # the order in which the caller LISTS the (disjoint) intervals
     fn = _wavfile(width, rate)
-    off = F(1, 3) if offgrid else F(0)
+    off = F(1, 3) if offgrid is True else F(0)      # offgrid == "as-given": the boundaries are given in (fractional) sample units as they are
     L = [(float((F(a) + off) / rate), float((F(b) - off) / rate)) for a, b in ivs]
     if order == "desc":
         L = L[::-1]
@@ -504,6 +504,15 @@ def parts(tier):
                     for kind in ("keep", "delete"):
                         for repl in (None, "silence", "sine"):
                             yield (width, rate, ivs, off, kind, repl)
+        # TOUCHING stretches whose shared boundary lies off the sample grid, each boundary with a sub-sample phase of its own (0.4, 2.8, 6.0 ...):
+        # where one stretch ends in samples and where the next begins are two roundings, not one
+        mixed = [((F(2, 5), F(14, 5)), (F(14, 5), F(6))), ((F(8, 5), F(17, 5)), (F(17, 5), F(36, 5))), ((F(1, 2), F(5, 2)), (F(5, 2), F(9, 2)), (F(9, 2), F(8))),
+                 ((F(11, 5), F(23, 5)), (F(23, 5), F(99, 10))), ((F(0), F(13, 5)), (F(13, 5), F(12)))]
+        for width, rate in combos[:2] + combos[3:4]:
+            for ivs in mixed:
+                for kind in ("keep", "delete"):
+                    for repl in (None, "silence"):
+                        yield (width, rate, ivs, "as-given", kind, repl)
         # a replacement generator with a memory (numbered output): every dropped stretch gets the audio generated for it, in order
         for width, rate in combos:
             for ivs in sets:
